@@ -158,7 +158,7 @@ theorem HK_type_resource {T : Types} {rid : Nat} {q : Res} (h : HR T rid (ρ q.i
 then `[constructor]r`, `[method]r.m` (with `self: borrow<r>`), `[static]r.m`. -/
 theorem resourceDecl_ok {st st' : St} {n : Str} {items : List ResItem} {externs externs' : List (Str × ItemKind)}
     (h : resourceDecl st n items externs = .ok (st', externs')) :
-    Grow st.types st'.types ∧ st'.root = st.root ∧
+    Grow st.types st'.types ∧ st'.root = st.root ∧ st.types.resources.length < st'.types.resources.length ∧
     ∀ (container : Str) (ifaces : List (Str × List (Str × Tree))) (s s' : Scope) (out : List (Str × Tree)),
       denoteItem container ifaces s (.resource n items) = some (s', out) →
       s'.next = s.next + 1 ∧
@@ -174,7 +174,12 @@ theorem resourceDecl_ok {st st' : St} {n : Str} {items : List ResItem} {externs 
     obtain ⟨hfr, rfl⟩ := register_ok hreg
     obtain ⟨g2, sc2, rt2, k2⟩ := resGo_ok (ρ := ρ) n _ _ _ _ _ _ h
     have g1 := Grow.addResource st { name := n, alias := none }
-    refine ⟨g1.trans g2, rt2, ?_⟩
+    refine ⟨g1.trans g2, rt2, ?_, ?_⟩
+    · have h1 : (Elab.addResource st { name := n, alias := none }).1.types.resources.length ≤
+          st'.types.resources.length := g2.ext.resources_len
+      have h2 : (Elab.addResource st { name := n, alias := none }).1.types.resources.length =
+          st.types.resources.length + 1 := by simp [Elab.addResource]
+      omega
     intro container ifaces s s' out hden
     simp only [denoteItem] at hden
     obtain ⟨l, hl, hden⟩ := Option.map_eq_some_iff.mp hden
